@@ -542,6 +542,15 @@ Definition mon_step (unk : bool) (o : op) (prev cur : obs) : list string :=
            | OSetLabel _ _ _ _ | ODelLabel _ _ _ _ => ["C18:label-property-rollback-applies-inverse-op"]
            | _ => ["C18:rejected-change-altered-served"]
            end) ++
+     (* ... and what a new leader would reload is what it would have reloaded before (unless the config write of this very call was
+        applied and reported failed: then storage is legitimately ahead) *)
+     (match o with
+      | OSetSchedule _ (Fault GConfig _ FAfter) | OSetReplication _ (Fault GConfig _ FAfter) | OSetPDServer _ (Fault GConfig _ FAfter)
+      | OSetLabel _ _ _ (Fault GConfig _ FAfter) | ODelLabel _ _ _ (Fault GConfig _ FAfter) | OSetVersion _ (Fault GConfig _ FAfter)
+      | OSetMode _ (Fault _ _ _) | OSetLabelMap _ (Fault GConfig _ FAfter) | OSetStoreLimit _ _ _ _ (Fault GConfig _ FAfter)
+      | OSetAllLimits _ _ (Fault GConfig _ FAfter) => []
+      | _ => if opt_eqb conf_eqb (o_reload prev) (o_reload cur) then [] else ["C18:rejected-change-altered-stored-config"]
+      end) ++
      (* the served default rule is part of the served replication settings while placement rules are on *)
      (if rp_pr (c_repl (o_served cur)) && rp_pr (c_repl (o_served prev)) && negb (opt_eqb rule_eqb (o_srule prev) (o_srule cur))
       then ["C18:rejected-replication-change-edited-served-rule"] else [])
@@ -653,6 +662,14 @@ Definition mon_jstep (st : jstep) : list string :=
                                               (sc_sbr (c_sched c)) (sc_pay (c_sched c))) in
      if conf_eqb (strip sv) (strip rl) && forallb (fun t => mem_str t (sc_scheds (c_sched rl))) (sc_scheds (c_sched sv))
      then [] else ["C18:coordinator-start-overwrote-an-accepted-change"])
+  else if String.eqb path "ttl-window-stored" then
+    (* a request accepted while a temporary (ttlSecond) override of max-snapshot-count is active and that does not name that item:
+       sv = what a new leader reloads after it, rl = what it reloaded before: the temporary value must not have been persisted *)
+    (if sc_pay (c_sched sv) =? sc_pay (c_sched rl) then [] else ["C18:temporary-override-persisted"])
+  else if String.eqb path "ttl-expired" then
+    (* the override has expired: sv = what is served now, rl = what was served before the override was set, updated by the requests since *)
+    (if sc_pay (c_sched sv) =? sc_pay (c_sched rl) then [] else ["C18:temporary-override-outlived-its-ttl"])
+  else if String.eqb path "ttl-set" then []
   else if is_ok r then
     (* an accepted change is what a new leader reloads *)
     (if conf_eqb rl (normalise sv) then [] else ["C18:accepted-change-not-reloaded"])
